@@ -219,6 +219,10 @@ func runCase(t *testing.T, c *vk.C, sc scase) {
 			ctx, cancel := context.WithTimeout(context.Background(), 2*time.Hour)
 			err := tr.T.Kill(ctx)
 			cancel()
+			if err == nil && tor.Get(tr.T.Hash) != nil {
+				// "after deletion completes the torrent is no longer listed": judged at the instant Kill returns
+				sw.Viol("C17", "deletion", "still-listed-when-kill-returned", "tor.Get(hash) still finds the torrent at the moment Kill returned nil")
+			}
 			killRes.set(0, err, "")
 			tr.Killed = true
 		}
